@@ -10,6 +10,7 @@ import Dagrt.Driver.C20
 import Dagrt.Driver.C13
 import Dagrt.Driver.C18
 import Dagrt.Driver.C16
+import Dagrt.Driver.C07
 import Dagrt.Driver.C17
 open Lean Dagrt.Driver
 
@@ -23,6 +24,7 @@ def dispatch (j : Json) : R Json := do
   | ["C11", o] => C01.handle o j
   | ["C04", o] => C04.handle o j
   | ["C08", o] => C08.handle o j
+  | ["C07", o] => C07.handle o j
   | ["C10", o] => C10.handle o j
   | ["C16", o] => C16.handle o j
   | ["C17", o] => C17.handle o j
